@@ -1103,8 +1103,16 @@ func genMetaball3(rng *rand.Rand, kind int) *primShape {
 		m, d := base()
 		k := []float64{0.5, 2, 3}[rng.Intn(3)]
 		sp.mbs = []model3d.Metaball{model3d.ScaleMetaball(m, k)}
+		if rng.Intn(2) == 0 {
+			// metaballs that fade at different rates, the quickly fading one first
+			sp.mbs = []model3d.Metaball{&model3d.Sphere{Center: v3c(pvec{0.5, 0, 0}), Radius: 0.25}, sp.mbs[0]}
+			d = "Sphere((0.5,0,0),0.25) + " + d
+		}
 		sp.variant = fmt.Sprintf("scale=%v %s", k, d)
 		sp.reach = thr * k
+		if len(sp.mbs) == 2 {
+			sp.reach = 2*thr*k + 1
+		}
 	default:
 		sp.site = "VecScaleMetaball"
 		m, d := base()
